@@ -28,10 +28,18 @@ EXPLANATION = ('Parse actions, the and/or folding, the code generator (per node 
 
 
 def task_names(tier):
-    return ['fold', 'actions', 'getpath', 'compare', 'codegen', 'rowloop', 'pipeline', 'grammar/engine', 'grammar/structure', 'grammar/keywords', 'grammar/asgiven']
+    return ['fold', 'actions', 'getpath', 'compare', 'codegen', 'rowloop', 'pipeline', 'grammar/engine', 'grammar/structure', 'grammar/keywords', 'grammar/asgiven',
+            'index/setitem', 'index/delitem', 'index/insert', 'index/extend', 'index/mixins', 'index/lookup']
 
 
 def run_task(name, tier):
+    if name.startswith('index/'):
+        # `a->b` follows a reference through grid[name]: whatever the grid went through before (replacements, deletions, swaps, reverse()), the lookup
+        # returns the row currently in the grid - the id-index tasks of C15 are obligations of this property
+        from props import C15
+        r = C15.run_task(name.split('/', 1)[1], tier)
+        r['task'] = name
+        return r
     T = Task(name)
     if name.startswith('grammar/'):
         from props import filtergram as FG
